@@ -6,7 +6,8 @@ def _(self: "J1939_22", send_message: "func", job_thread_wakeup: "func", notify_
       minimum_tp_rts_cts_dt_interval: "opt(real)", minimum_tp_bam_dt_interval: "opt(real)", ecu_is_message_acceptable: "funcT(bool, True)"):
     requires(1 <= max_cmdt_packets <= 255,
              implies(not is_none(minimum_tp_rts_cts_dt_interval), minimum_tp_rts_cts_dt_interval > 0),
-             implies(not is_none(minimum_tp_bam_dt_interval), minimum_tp_bam_dt_interval > 0))
+             implies(not is_none(minimum_tp_bam_dt_interval), minimum_tp_bam_dt_interval > 0),
+             send_message != job_thread_wakeup, send_message != notify_subscribers, job_thread_wakeup != notify_subscribers)
     # the nine loops that fill the DLC look-up table are unrolled (constant trip counts)
     ensures("C07.inv22.init", inv22(self))
     # full capacity at start: 8 destination-specific and 4 broadcast session numbers free
